@@ -107,7 +107,7 @@ def gen_cases(tier: str, seed: int):
     for ep in ENTRY_POINTS:
         for ctx in ("full", "none"):
             yield {"part": "closed", "entry": ep, "ctx": ctx}
-    n = 1500 if tier == "quick" else 25000
+    n = 1500 if tier == "quick" else 18000
     # every failing statement at least once in each context / transaction state, then random
     combos = [(i, ctx, txn) for i in range(len(FAILS)) for ctx in ("full", "db", "none") for txn in (False, True)]
     r.shuffle(combos)
